@@ -30,7 +30,53 @@ def parseItems (j : Json) : List (String × String) :=
   | .ok a => a.toList.filterMap (fun e => match e with | .arr p => (match p[0]!, p[1]! with | .str n, .str v => some (n, v) | _, _ => none) | _ => none)
   | .error _ => []
 
+/-- wall-clock side of C05 (the model has a deadline *event*): the lookup of a resource that never arrives ends with an
+error no later than the earlier of fetch timeout and caller deadline, plus generous scheduling slack -/
+def checkDeadline (j : Json) : Except String Verdict := do
+  let fetch := jNatD j "fetchMs" 0
+  let caller := jNatD j "callerMs" 0
+  let o ← j.getObjVal? "obs"
+  let res := jStrD o "result" "?"
+  let el := jNatD o "elapsedMs" 0
+  let bound := if caller = 0 then fetch else min fetch caller
+  let slack := 1500
+  let sf : Option String :=
+    if !res.startsWith "err:" then some s!"C05.result_shape: a resource that was never delivered was answered with '{res}'"
+    else if el > bound + slack then
+      some s!"C05.deadline_bounded: lookup with fetch timeout {fetch} ms and caller deadline {caller} ms (0 = none) returned after {el} ms, later than the earlier of the two plus {slack} ms"
+    else none
+  return { nontrivial := caller != 0, mismatch := none, specfail := sf }
+
+/-- C07 "policy before data", on the observed order of events of the real manager: when the lookup exposes the
+resource, every handler registered by then has been run (to completion) on the update that delivered it -/
+def checkHandlersOrder (j : Json) : Except String Verdict := do
+  let o ← j.getObjVal? "obs"
+  let n := jStrD j "n" "?"
+  let ev ← jStrList o "events"
+  if jBoolD o "hang" false then
+    return { nontrivial := true, mismatch := none, specfail := some s!"C07.no_deadlock: update, lookup and handler registration did not all finish: {ev}" }
+  let idx (e : String) : Option Nat := ev.findIdx? (· == e)
+  let sf : Option String :=
+    match ev.findIdx? (fun e => e.startsWith "get val:") with
+    | none => some s!"C07: the lookup of the delivered resource did not return it: {ev}"
+    | some g =>
+      match idx "H1 exit" with
+      | none => some s!"C07.policy_before_data: the first handler never completed: {ev}"
+      | some x =>
+        if x > g then some s!"C07.policy_before_data: the lookup exposed {n} while a registered handler was still running for the update that delivered it: {ev}"
+        else match idx "H2 registered" with
+          | some r2 =>
+            if r2 < g then
+              match idx s!"H2 saw {n}" with
+              | some s2 => if s2 < g then none else some s!"C07.policy_before_data: handler H2 was registered before the lookup exposed {n} but saw it only afterwards: {ev}"
+              | none => some s!"C07.policy_before_data: handler H2 was registered before the lookup exposed {n} but was never run for the update that delivered it: {ev}"
+            else none
+          | none => none
+  return { nontrivial := true, mismatch := none, specfail := sf }
+
 def check (pid : String) (j : Json) : Except String Verdict := do
+  if jStrD j "op" "" = "deadline" then return ← checkDeadline j
+  if jStrD j "op" "" = "handlers-order" then return ← checkHandlersOrder j
   let sc ← j.getObjVal? "scenario"
   let names ← jStrList sc "names"
   let tn : Nat → String := fun i => names.getD i "?"
